@@ -1,7 +1,6 @@
 #ifndef LIBTORRENT_REQUEST_LIST_H
 #define LIBTORRENT_REQUEST_LIST_H
 
-#include <algorithm>
 #include <deque>
 #include <optional>
 #include <vector>
@@ -71,8 +70,6 @@ public:
 
   bool                 queued_empty() const               { return m_queues.queue_empty(bucket_queued); }
   size_t               queued_size() const                { return m_queues.queue_size(bucket_queued); }
-  // Queued requests that still count: a transfer invalidated by Block::completed (CANCEL sent) may never be answered.
-  size_t               queued_valid_size() const          { return std::count_if(m_queues.begin(bucket_queued), m_queues.end(bucket_queued), [](const BlockTransfer* t) { return t->is_valid(); }); }
   bool                 unordered_empty() const            { return m_queues.queue_empty(bucket_unordered); }
   size_t               unordered_size() const             { return m_queues.queue_size(bucket_unordered); }
   bool                 stalled_empty() const              { return m_queues.queue_empty(bucket_stalled); }
